@@ -51,11 +51,13 @@ Section Model.
   (* ---------------------------------------------------------------- check_solution_validity
      demands = cat(-vehicle_capacity, demand); for every action a: if the previous action and a are both the depot,
      ALL entries of demands (column 0 included) must be zero; d = min(demands[a], capacity - used);
-     demands[a] -= d; used += d; used = 0 at the depot.  Finally ALL entries of demands must be zero. *)
+     demands[a] -= d; used += d; used = 0 at the depot.  Finally all CUSTOMER entries of demands must be zero
+     (`demands[:, 1:]`; before the repair 56d7d8e the depot column, which holds -capacity until a depot visit, was
+     tested as well: recorded as fixed in known_findings.json). *)
   Definition all_zero (l : list Z) : bool := forallb (fun d => d =? 0) l.
   Fixpoint sd_check_loop (i : cvrp_inst) (dm : list Z) (u : Z) (prev : option nat) (acts : list nat) : bool :=
     match acts with
-    | [] => all_zero dm
+    | [] => all_zero (tl dm)
     | a :: r =>
         (match prev with Some O => if Nat.eqb a 0 then all_zero dm else true | _ => true end) &&
         Nat.leb a (n_of i) &&
